@@ -15,14 +15,14 @@ static const VpOp OPS[] = {
     {"prefetch_read<char>", {}, {SK_SMALL, SK_RAW, SK_OFF, SK_SMALL}, 1}, {"prefetch_read<int>", {}, {SK_SMALL, SK_RAW, SK_OFF, SK_SMALL}, 1}, {"prefetch_read<double>", {}, {SK_SMALL, SK_RAW, SK_OFF, SK_SMALL}, 1}, {"prefetch_read<64-byte struct>", {}, {SK_SMALL, SK_RAW, SK_OFF, SK_SMALL}, 1},
     {"prefetch_write<char>", {}, {SK_SMALL, SK_RAW, SK_OFF, SK_SMALL}, 1}, {"prefetch_write<int>", {}, {SK_SMALL, SK_RAW, SK_OFF, SK_SMALL}, 1}, {"prefetch_write<double>", {}, {SK_SMALL, SK_RAW, SK_OFF, SK_SMALL}, 1}, {"prefetch_write<64-byte struct>", {}, {SK_SMALL, SK_RAW, SK_OFF, SK_SMALL}, 1},
 };
-enum { CL_TOUCHES_GUARD, CL_INSIDE_GUARD, CL_NULL, CL_N_ZERO, CL_MISALIGNED_TYPED, CL_LAST_BYTE, CL_ORDINARY };
-static const char* const CLASSES[] = {"range_reaches_into_inaccessible_page", "pointer_inside_inaccessible_page", "null_pointer", "n_zero", "misaligned_typed_pointer", "last_byte_before_inaccessible_page", "ordinary"};
+enum { CL_TOUCHES_GUARD, CL_INSIDE_GUARD, CL_NULL, CL_N_ZERO, CL_MISALIGNED_TYPED, CL_LAST_BYTE, CL_ORDINARY, CL_ADDRESS_SPACE_END };
+static const char* const CLASSES[] = {"range_reaches_into_inaccessible_page", "pointer_inside_inaccessible_page", "null_pointer", "n_zero", "misaligned_typed_pointer", "last_byte_before_inaccessible_page", "ordinary", "first_or_last_cache_line_of_the_address_space"};
 extern "C" const char* vp_property(void) { return "C20"; }
 extern "C" const VpOp* vp_ops(uint32_t* n) { *n = OP_COUNT; return OPS; }
-extern "C" const char* const* vp_class_names(uint32_t* n) { *n = 7; return CLASSES; }
+extern "C" const char* const* vp_class_names(uint32_t* n) { *n = 8; return CLASSES; }
 extern "C" const char* vp_rule(void) {
     return "a case is one prefetch_read / prefetch_write call (untyped or typed, cache level L1/L2/L3) with a pointer placed inside accessible memory, at the last byte before a PROT_NONE page, "
-           "inside the PROT_NONE page, null or misaligned, and a count from 0 to three pages; any signal, any changed byte of the arena or any changed page protection fails; non-trivial = a range that "
+           "inside the PROT_NONE page, null, misaligned, or in the first / last cache line of the address space (range ending at the last byte), and a count from 0 to three pages; any signal, any changed byte of the arena or any changed page protection fails; non-trivial = a range that "
            "touches or lies inside an inaccessible page, a null pointer or n = 0; distinct = distinct hash of the Case";
 }
 extern "C" const VpTarget* vp_targets(uint32_t* n) { static VpTarget t = {"prefetch", 1, 8, 3, 1}; *n = 1; return &t; }
@@ -71,7 +71,7 @@ extern "C" void vp_run(const VpCase* c, VpOutcome* o) {
     if (c->target != 0) { o->status = 2; return; }
     arena_init();
     const unsigned op = c->op;
-    const unsigned place = (unsigned)(c->s[0] < 0 ? -c->s[0] : c->s[0]) % 8, off = (unsigned)(c->s[2] < 0 ? -c->s[2] : c->s[2]) % 64, lvl = (unsigned)(c->s[3] < 0 ? -c->s[3] : c->s[3]) % 3;
+    const unsigned place = (unsigned)(c->s[0] < 0 ? -c->s[0] : c->s[0]) % 10, off = (unsigned)(c->s[2] < 0 ? -c->s[2] : c->s[2]) % 64, lvl = (unsigned)(c->s[3] < 0 ? -c->s[3] : c->s[3]) % 3;
     const size_t esz = (op == OP_READ_T4 || op == OP_WRITE_T4) ? 4 : (op == OP_READ_T8 || op == OP_WRITE_T8) ? 8 : (op == OP_READ_T64 || op == OP_WRITE_T64) ? 64 : 1;
     size_t nbytes = (size_t)((uint64_t)c->s[1] % (3 * g_page + 1));      // the loop is linear in n: bounded to three pages
     if (((uint64_t)c->s[1] >> 60) == 0xF) nbytes = 0;
@@ -87,7 +87,10 @@ extern "C" void vp_run(const VpCase* c, VpOutcome* o) {
     case 4: p = rw + 2 * g_page + off; cls(CL_INSIDE_GUARD); break;                                         // inside the PROT_NONE page
     case 5: p = nullptr; cls(CL_NULL); break;
     case 6: p = g_arena + off; cls(CL_INSIDE_GUARD); break;                                                 // leading guard page
-    default: p = rw + 1 + off; break;                                                                        // misaligned for typed pointers
+    case 7: p = rw + 1 + off; break;                                                                         // misaligned for typed pointers
+    case 8: p = reinterpret_cast<const unsigned char*>(~(uintptr_t)0 - off);                                 // last cache line of the address space; the range ends at the last byte at most
+            { size_t room = (size_t)off + 1; if (nbytes > room) nbytes = room; n = nbytes / esz; } cls(CL_ADDRESS_SPACE_END); break;
+    default: p = reinterpret_cast<const unsigned char*>((uintptr_t)1 + off); cls(CL_ADDRESS_SPACE_END); break; // first (unmapped) cache line
     }
     if (p && esz > 1 && ((uintptr_t)p % esz)) cls(CL_MISALIGNED_TYPED);
     if (n == 0) cls(CL_N_ZERO);
@@ -112,7 +115,7 @@ extern "C" void vp_enum(int tier, uint64_t seed, uint32_t shard, uint32_t nshard
     uint64_t job = 0;
     const size_t ns[] = {0, 1, 2, 63, 64, 65, 127, 128, 129, 4095, 4096, 4097, 8191, 8192, 12288};
     for (unsigned op = 0; op < OP_COUNT; ++op)
-        for (unsigned place = 0; place < 8; ++place) {
+        for (unsigned place = 0; place < 10; ++place) {
             if ((job++ % nshards) != shard) continue;
             for (unsigned off = 0; off < 64; off += (tier ? 1 : (op < 2 ? 1 : 7)))
                 for (size_t n : ns) for (unsigned lvl = 0; lvl < 3; ++lvl) {
@@ -122,5 +125,5 @@ extern "C" void vp_enum(int tier, uint64_t seed, uint32_t shard, uint32_t nshard
         }
 }
 extern "C" void vp_sweep(int, uint64_t, uint32_t, uint32_t, void (*)(const VpCase*, void*), void*, uint64_t*, uint64_t*, char* d, size_t cap) {
-    std::snprintf(d, cap, "every offset 0..63 of a cache line x 8 pointer placements x 15 counts (0 .. three pages) x 3 cache levels for the untyped overloads (typed overloads: every 7th offset in the quick tier)");
+    std::snprintf(d, cap, "every offset 0..63 of a cache line x 10 pointer placements x 15 counts (0 .. three pages) x 3 cache levels for the untyped overloads (typed overloads: every 7th offset in the quick tier)");
 }
